@@ -317,7 +317,7 @@ def _d2o_event(idv, mol, lam, d, v, molecule=None, table=None, energy=None, vect
     t = table if table is not None else P.elements
     ev["hpart"] = parts_of(P.formula(t.H))[0]
     ev["dpart"] = parts_of(P.formula(t.D))[0]
-    H2O, D2O = P.formula("H2O@0.9982n"), P.formula("D2O@0.9982n")
+    H2O, D2O = P.formula("H2O@0.9982n", table=table), P.formula("D2O@0.9982n", table=table)      # (the solvent of the caller's table)
     ev["psH2O"], ev["rhoH2O"] = parts_of(H2O), dec.to_dec(H2O.density)
     ev["psD2O"], ev["rhoD2O"] = parts_of(D2O), dec.to_dec(D2O.density)
     arg, dkw = (mol, {}) if call_with is None else call_with
@@ -366,11 +366,15 @@ def _d2o(t, T):
         # fasta.Molecule takes the NATURAL density; give both the same thing
         mol = fasta.Molecule("m", g, density=g.natural_density)
     call_with = None
+    tab = _tab(T) if T else None
     if t.get("kwdens"):
-        call_with = (build(t["compound"], T), kw)          # density= / natural_density= as keywords of D2O_sld / D2O_match
+        call_with = (build(t["compound"], T), dict(kw, **({"table": tab} if tab is not None else {})))     # density= / natural_density= as keywords
+    elif t.get("text") and tab is not None:
+        # the compound as text, read by D2O_sld / D2O_match themselves with table=T (a table with its own masses)
+        call_with = ("%s@%r" % (str(g), g.density), {"table": tab})
     try:
         return [_d2o_event(t["id"], g, t.get("wavelength"), t["d"], t["v"], molecule=mol, energy=t.get("energy"), vector=t.get("vector", 0),
-                           call_with=call_with)]
+                           call_with=call_with, table=tab)]
     except Exception as e:
         return [{"ev": "d2o", "id": t["id"], "exc": "%s: %s" % (type(e).__name__, str(e)[:100])}]
 
